@@ -2241,7 +2241,7 @@ def gen_eff_random(r):
             n = r.choice(names)
             if S['kind'] == 'object':
                 # (an object's attribute, once it has been looked up with success, is kept for the rendering by the
-                # library: known finding C09-instance-attribute-kept; objects only GAIN a name here, once)
+                # library: the client frame keeps what it has answered - a matter of the namespace (C02), not of the conditional; objects only GAIN a name here, once)
                 if (S['id'], n) in taken:
                     continue
                 taken.add((S['id'], n))
@@ -2408,7 +2408,7 @@ def run(res, tier, have_driver):
                         'the model interprets the abstract program; that the spellings (syntaxes, else NAME, stand-alone else) '
                         'compile to it is observed on the real classes through the oracle, and stated by C06 / C07 for the parser model',
                         'effects on data sources: an OBJECT source only gains a name, once (the library keeps an attribute '
-                        'that was looked up with success for the rest of the rendering: known finding C09-instance-attribute-kept); '
+                        'that was looked up with success for the rest of the rendering: the namespace answers, the conditional is judged against the namespace); '
                         'mapping sources change freely; values are ints / strings / None',
                         'a stand-alone `else NAME` block is not generated where an enclosing if / in block is on the same name or '
                         'expression (there the documentation leaves open which tag it continues)']
